@@ -140,6 +140,10 @@ def run_c02(ctx: Ctx):
                                      {"class": cname, "kwargs": kwargs_line(kw)}, "construct vs generated __init__", "C02"):
                                 return
                         ro = genlib.render(obj)
+                        if len(ro) > 400_000:
+                            # hundreds of nested 64,008-character strings: minutes in the list-based model for one object
+                            ctx.count("huge_object_not_compared")
+                            continue
                         per_class.append((cname, kw))
                         for san in (False, True):
                             real = genlib.do_ser(case.run.get_class(cname), obj, san)
@@ -1002,6 +1006,18 @@ def run_c19(ctx: Ctx):
                             continue
                         a = genlib.do_ser(cls, back, False)
                         rb = genlib.render(back)
+                        # later deserialisations of the same class (a shorter and a longer input) must not reach back into
+                        # an instance already handed out (its fields, its byte_size)
+                        for other in (data[:len(data) // 2], data + b"\x01\x02"):
+                            try:
+                                genlib.de_obj(cls, other, False, timeout=0.5)
+                            except BaseException as e:  # noqa: BLE001
+                                if isinstance(e, KeyboardInterrupt):
+                                    raise
+                        if genlib.render(back) != rb:
+                            fails(ctx, case, f"{cname}: an instance returned by deserialize changed when other bytes were deserialised "
+                                  f"later: `{rb[:100]}` became `{genlib.render(back)[:100]}`", {"class": cname, "bytes": data.hex()})
+                            return
                         for i in range(len(buf)):
                             buf[i] ^= 0x55         # the caller reuses its buffer
                         b = genlib.do_ser(cls, back, False)
